@@ -23,6 +23,7 @@ fn next_power_of_2(num: u64) -> u64 {
     num |= num >> 4;
     num |= num >> 8;
     num |= num >> 16;
-    num += 1;
+    num |= num >> 32;
+    num = num.wrapping_add(1);
     num
 }
